@@ -11,18 +11,39 @@ import (
 // sharing, duplication and orientation of faces are all solver-decided; the
 // definitions are evaluated by brute force over the ids.
 
-func vpIDMesh(f int) (*Mesh, [][3]int) {
+func vpIDMesh(f int) (*Mesh, [][3]float64) {
 	m := NewMesh()
-	var ids [][3]int
+	var ids [][3]float64
+	symbolic := vp.Param("symbolic") == 1
 	for i := 0; i < f; i++ {
-		var t [3]int
-		for j := range t {
-			t[j] = vp.Int("v", 0, 4)
+		var t [3]float64
+		switch {
+		case symbolic:
+			for j := range t {
+				// a vertex id in {0,...,4}, kept as a float so that no
+				// int->float conversion has to be bit-blasted
+				x := vp.Float64("v")
+				vp.Assume(vp.Any(x == 0, x == 1, x == 2, x == 3, x == 4))
+				t[j] = x
+			}
+			vp.Assume(vp.All(t[0] != t[1], t[1] != t[2], t[0] != t[2]))
+		case i == 0:
+			// symmetry breaking: the first face is (0,1,2)
+			t = [3]float64{0, 1, 2}
+		default:
+			// every ordered triple of distinct ids (explored by forking)
+			a := vp.Choice("v0", 5)
+			b := vp.Choice("v1", 4)
+			c := vp.Choice("v2", 3)
+			rest := []float64{0, 1, 2, 3, 4}
+			t[0] = rest[a]
+			rest = append(append([]float64{}, rest[:a]...), rest[a+1:]...)
+			t[1] = rest[b]
+			rest = append(append([]float64{}, rest[:b]...), rest[b+1:]...)
+			t[2] = rest[c]
 		}
-		// non-degenerate faces
-		vp.Assume(vp.All(t[0] != t[1], t[1] != t[2], t[0] != t[2]))
 		ids = append(ids, t)
-		m.Add(&Triangle{X(float64(t[0])), X(float64(t[1])), X(float64(t[2]))})
+		m.Add(&Triangle{X(t[0]), X(t[1]), X(t[2])})
 	}
 	return m, ids
 }
@@ -34,7 +55,7 @@ func VP_C11_Diagnostics() {
 	m, ids := vpIDMesh(f)
 
 	// undirected and directed edge multiplicities by brute force
-	type edge struct{ a, b int }
+	type edge struct{ a, b float64 }
 	var dir []edge
 	for _, t := range ids {
 		dir = append(dir, edge{t[0], t[1]}, edge{t[1], t[2]}, edge{t[2], t[0]})
@@ -57,7 +78,7 @@ func VP_C11_Diagnostics() {
 	for _, e := range ie {
 		cnt := 0
 		for _, g := range dir {
-			cnt += vp.IteI(vp.And(e[0].X == float64(g.a), e[1].X == float64(g.b)), 1, 0)
+			cnt += vp.IteI(vp.And(e[0].X == g.a, e[1].X == g.b), 1, 0)
 		}
 		vp.Assert(cnt >= 2, "every reported inconsistent edge is traversed at least twice in the same direction")
 	}
@@ -65,7 +86,7 @@ func VP_C11_Diagnostics() {
 	// singular vertices: the triangles at a vertex are not edge-connected
 	// (f <= 3: connected iff, among the incident triangles, the 'shares an
 	// edge' graph is connected)
-	shares := func(s, t [3]int) bool {
+	shares := func(s, t [3]float64) bool {
 		common := 0
 		for _, a := range s {
 			common += vp.IteI(vp.Or(vp.Or(a == t[0], a == t[1]), a == t[2]), 1, 0)
@@ -73,7 +94,8 @@ func VP_C11_Diagnostics() {
 		return common == 2
 	}
 	sv := m.SingularVertices()
-	for v := 0; v < 5; v++ {
+	for vi := 0; vi < 5; vi++ {
+		v := float64(vi)
 		inc := make([]bool, f)
 		for i, t := range ids {
 			inc[i] = vp.Or(vp.Or(t[0] == v, t[1] == v), t[2] == v)
@@ -103,7 +125,7 @@ func VP_C11_Diagnostics() {
 		}
 		reported := false
 		for _, c := range sv {
-			reported = vp.Or(reported, c.X == float64(v))
+			reported = vp.Or(reported, c.X == v)
 		}
 		vp.Assert(reported == singular, "SingularVertices are exactly the vertices whose triangle fan is disconnected")
 	}
